@@ -463,6 +463,20 @@ class ExprMixin:
         return Term("not", (Term("lt", (a, b), kind="bool", node=node),), kind="bool", node=node)
 
     def _identity(self, a: V, b: V) -> Optional[bool]:
+        if isinstance(a, Ext) and isinstance(b, Ext) and a.name == b.name:
+            return True             # one external object under one name (`native_type is UUID` for a table row holding UUID)
+        if isinstance(a, Ext) and isinstance(b, Ext) and (a.name.startswith("builtins.") or b.name.startswith("builtins.")) \
+                and a.name.split(".")[-1] != b.name.split(".")[-1] and not is_nil(a) and not is_nil(b):
+            return False            # a builtin (`list`) is no other named object (`int`, `uuid.UUID`)
+        for x, y in ((a, b), (b, a)):
+            if isinstance(x, (Ext, ClassV, FuncV)) and isinstance(y, Const) and y.value is None and (
+                    not isinstance(x, Ext) or x.name.split(".")[0] in ("builtins", "operator", "functools", "itertools", "math", "re",
+                                                                      "string", "uuid", "datetime", "copy", "typing")):
+                return False        # a function / class (`measure=len`) is not None
+        if isinstance(a, ClassV) and isinstance(b, ClassV):
+            return a.cls.qualname == b.cls.qualname
+        if (isinstance(a, ClassV) and isinstance(b, Ext)) or (isinstance(a, Ext) and isinstance(b, ClassV)):
+            return False            # a class of the package is not an external object
         for x, y in ((a, b), (b, a)):
             if isinstance(x, Sym) and x.origin and x.origin[0] == "sentinel":
                 return getattr(y, "uid", None) == x.uid
@@ -642,6 +656,9 @@ class ExprMixin:
     def getitem(self, recv: V, idx: V, node: Any) -> V:
         idx = self.resolve(idx)
         recv = self._unwrap1(recv)
+        if isinstance(recv, (ListV, TupleV)) and recv.concrete() and len(recv.items) == 2 and isinstance(idx, Term) \
+                and idx.kind == "bool" and idx.op in ("lt", "eq", "not", "in", "is", "isinstance", "and", "or"):
+            return recv.items[1 if self.decide(idx, node) else 0]       # pair[<comparison>]: the two-way choice it decides
         if isinstance(recv, (ListV, TupleV)) and isinstance(idx, Const) and isinstance(idx.value, int):
             n = len(recv.items)
             if recv.concrete():
@@ -855,7 +872,12 @@ class ExprMixin:
                     fv = FuncV(target, recv)
                     fv.pre_args = [self.eval(x, Frame(None, c2.module, {})) for x in expr.args[1:]]   # type: ignore[attr-defined]
                     return fv
-            return self.eval(expr, Frame(None, c2.module, {}))
+            val_ = self.eval(expr, Frame(None, c2.module, {}))
+            if isinstance(val_, Term) and val_.op == "property" and val_.args and isinstance(val_.args[0], FuncV) \
+                    and not isinstance(recv, ClassV):
+                # `name = property(getter)` in the class body: reading it on an instance calls the getter
+                return self._invoke(FuncV(val_.args[0].func, None, val_.args[0].closure), [recv], {}, node)
+            return val_
         # __getattr__ fallbacks defined by d42 raise AttributeError
         ga = ci.lookup("__getattr__")
         if ga is not None:
@@ -1021,13 +1043,69 @@ class ExprMixin:
         if k == "str":
             return "str"
         ek = getattr(src, "elem_kind", None)
+        if ek is None and isinstance(src, Term) and src.op == "call" and src.args and src.args[0] == "itertools.count" \
+                and all(self.kind_of(a) == "int" for a in src.args[1:] if isinstance(a, V)):
+            return "int"
         return ek
+
+    def _nth_of_endless(self, src: V, k: int) -> Optional[V]:
+        """k-th member of an endless source: itertools.count([start[, step]]) or a comprehension / map over one"""
+        if isinstance(src, Term) and src.op == "call" and src.args and src.args[0] == "itertools.count":
+            a = [x for x in src.args[1:] if isinstance(x, V)]
+            st = a[0] if a else Const(0)
+            step = a[1] if len(a) > 1 else Const(1)
+            if isinstance(st, Const) and isinstance(step, Const):
+                return Const(st.value + k * step.value)
+            return None
+        if isinstance(src, Term) and src.op == "gencomp" and len(src.args) == 2 and isinstance(src.args[1], Term) and src.args[1].op == "src":
+            inner = src.args[1].args[0]
+            nth = self._nth_of_endless(inner, k)
+            if nth is None:
+                return None
+            ek = f"elem@{inner.key()}"
+
+            def sub(t: Any) -> Any:
+                if isinstance(t, V) and t.key() == ek:
+                    return nth
+                if isinstance(t, Term):
+                    args2 = tuple(sub(a) for a in t.args)
+                    if t.op == "bin" and len(args2) == 3 and isinstance(args2[1], Const) and isinstance(args2[2], Const) \
+                            and args2[0] in ("+", "-", "*"):
+                        x, y = args2[1].value, args2[2].value
+                        return Const(x + y if args2[0] == "+" else x - y if args2[0] == "-" else x * y)
+                    kind2 = t.kind
+                    if kind2 is None and t.op == "bin" and len(args2) == 3 and all(
+                            isinstance(a, V) and self.kind_of(a) in ("int", "bool") for a in args2[1:]):
+                        kind2 = "int"
+                    return Term(t.op, args2, kind2, t.node)
+                return t
+            return sub(src.args[0])
+        return None
 
     def iterate(self, it: V, node: Any) -> Iterator[V]:
         it = self._unwrap1(it)
         if isinstance(it, (ListV, TupleV, SetV)) and it.concrete():
             yield from list(it.items)
             return
+        if isinstance(it, Term) and it.op == "call" and it.args and it.args[0] == "builtins.zip" and len(it.args) >= 3:
+            # zip(<n known members>, <endless source>...): exactly n pairs
+            srcs = [self._unwrap1(a) if isinstance(a, V) else a for a in it.args[1:]]
+            known = [a for a in srcs if isinstance(a, (ListV, TupleV)) and a.concrete()]
+            if known:
+                n_ = min(len(a.items) for a in known)
+                rows = []
+                for k in range(n_):
+                    row = []
+                    for a in srcs:
+                        if isinstance(a, (ListV, TupleV)) and a.concrete():
+                            row.append(a.items[k])
+                        else:
+                            row.append(self._nth_of_endless(a, k) if isinstance(a, V) else None)
+                    rows.append(row)
+                if all(x is not None for r_ in rows for x in r_):
+                    for r_ in rows:
+                        yield TupleV(list(r_))
+                    return
         if isinstance(it, DictV) and it.concrete():
             for k, _ in list(it.pairs()):
                 yield k
